@@ -71,7 +71,7 @@ def run(ctx, chk):
                 else:
                     fired.add(fname)
                 continue
-            if sym in rules.PURE_LIBC:
+            if sym in rules.PURE_LIBC or sym in rules.NON_REENTRANT_LIBC:
                 if lib_only:
                     chk.ob("C13.ext", "%s %s in %s" % (kind, sym, fname), True, where, fn=fname, key="%s:%s" % (fname, sym),
                            nontrivial=False)
@@ -314,6 +314,50 @@ def run(ctx, chk):
             chk.ob("C13.provenance", "%s(%s) in %s" % (g, _short(c.operands[0]), f.name), ok, c.loc(), fn=f.name,
                    key="%s:%s:%s" % (f.name, g, _short(c.operands[0])), detail=why)
     chk.floor("C13.provenance", "release/resize sites", n_rel, 12)
+
+    # ---- rule who-frees: a block that sits in a field of a live object is handed to free only by the release routines
+    import ownership as O_
+    chk.rule("C13.who-frees", "a block read out of a field of an object (item.data, a chunk table, a stack record) is handed to the "
+                              "installed free only by the release routine cbor_decref (and the helpers it is split into) and by "
+                              "_cbor_stack_pop; every other free is of a block obtained in the same function. A setter or accessor "
+                              "that frees what a field holds would release a block its owner - or the client that attached it - "
+                              "releases again")
+    RELEASERS = {"cbor_decref", "_cbor_stack_pop"} | (O_.static_callees(prog, eff, "cbor_decref") if "cbor_decref" in prog.funcs else set())
+
+    def field_origins(f, v, depth=0, seen=frozenset()):
+        """functions in which the freed pointer is read out of a field (a load that is not a plain local variable)"""
+        v0 = strip_casts(v)
+        if isinstance(v0, Inst) and v0.op == "phi" and v0.id not in seen:
+            out = []
+            for x in v0.operands:
+                out += field_origins(f, x, depth, seen | {v0.id})
+            return out
+        if isinstance(v0, Inst) and v0.op == "load":
+            root, steps = apath(v0.operands[0])
+            if root[0] == "inst" and f.insts[root[1]].op == "alloca" and ("load",) not in steps:
+                return []     # a local variable
+            return [(f, v0)]
+        if isinstance(v0, Arg) and f.internal and depth < 3:
+            out = []
+            for g in prog.lib_funcs():
+                for c in g.calls(f.name):
+                    if v0.i < len(c.operands):
+                        out += field_origins(g, c.operands[v0.i], depth + 1)
+            return out
+        return []
+    n_wf = 0
+    for f in prog.lib_funcs():
+        for c, g in rules.alloc_calls(f):
+            if g != "_cbor_free":
+                continue
+            for hf, ld in field_origins(f, c.operands[0]):
+                n_wf += 1
+                ok = hf.name in RELEASERS
+                chk.ob("C13.who-frees", "%s frees a block read from a field in %s" % (f.name, hf.name), ok, c.loc(), fn=f.name,
+                       key="whofrees:%s:%s:%d" % (f.name, hf.name, ld.id),
+                       detail="" if ok else "%s is neither the release routine nor _cbor_stack_pop, yet the block it frees is one a live "
+                                            "object's field (read at %s) still describes" % (hf.name, ld.loc()))
+    chk.floor("C13.who-frees", "frees of blocks read from fields", n_wf, 5)
     chk.ob("C13.control", "verif_ctl_free_interior", ctl_fired, "controls/ctl_alloc.c")
 
     # ---- rule surface -----------------------------------------------------------
